@@ -1629,7 +1629,16 @@ MANIFEST = {
                    "dependence of the scan on it is a disagreement); session changes announced with ResponsePending complete 0.3 .. 19.1 s "
                    "(virtual time) later with the default client timeout and max_retry 0..3 (Model: withSlowPending; "
                    "scan_slow_pending_transparent: below the 20 s of the pending loop the scan is the scan of the ECU that answers at "
-                   "once; slow_pending_lost_at_giveup: at 20 s the transmission is lost)."),
+                   "once; slow_pending_lost_at_giveup: at 20 s the transmission is lost). "
+                   "Scans with a database: the session_transition table is modelled (Model/SessionDb.lean: rows (run, destination, "
+                   "steps), insert appends, fresh run ids); stored_transitions_are_reported_stacks: whatever earlier runs left in the "
+                   "table, the rows of a run under a fresh id are exactly its reported stacks, other runs' rows are untouched and every "
+                   "reported session has a row of this run whose sequence is a valid path of at most `depth` changes; next_run_is_fresh. "
+                   "Tied by running the real scanner with the real DBHandler on a sqlite file - one scan, and two or three consecutive "
+                   "scans of the same target (deep first / shallow first / any order, other skip / thorough / hooks / reset, sometimes a "
+                   "changed ECU graph) into the same file - and reading the rows of each run back from the file: every reported session "
+                   "must have a stored sequence of that run that leads there (specification evaluated on the stored rows), the stored "
+                   "rows must be the rows handed to the handler and the rows of the database model, earlier runs' rows must not change."),
     "level_note": ("Trusted: Lean kernel (axioms propext, Quot.sound, Classical.choice), the harness and its graph ECU, the "
                    "virtual-time loop. The ECU class is a deterministic session graph (answers depend on the current "
                    "session and on whether the session hook preceded the request); responsePending handling belongs to C04; OEM "
